@@ -20,6 +20,9 @@ EmitOK(e) == LET S == e.set IN
    /\ CanonSet(S) \notin seen                              \* not isomorphic to an earlier one
 Emit(e) == /\ EmitOK(e) = TRUE
            /\ seen' = seen \cup {CanonSet(e.set)} /\ count' = count + 1 /\ UNCHANGED <<dim, max, full>>
+\* far beyond the universe: every output judged on its own
+Valid(e) == /\ (LET S == e.set IN S.dim = e.dim /\ S.n <= e.max /\ IsDSet(S) /\ Complete(S) /\ Connected(S) /\ Commuting(S)) = TRUE
+            /\ UNCHANGED <<dim, max, seen, count, full>>
 End(e) == /\ (full => \A n \in 1..max : {c \in seen : c.n = n} = Classes(n, dim)) = TRUE      \* every class is represented
           /\ UNCHANGED <<dim, max, seen, count, full>>
 Next == /\ l <= Len(Rec)
@@ -27,6 +30,7 @@ Next == /\ l <= Len(Rec)
         /\ CASE Rec[l].ev = "dset_header" -> Header(Rec[l])
              [] Rec[l].ev = "dset_emit" -> Emit(Rec[l])
              [] Rec[l].ev = "dset_end" -> End(Rec[l])
+             [] Rec[l].ev = "dset_valid" -> Valid(Rec[l])
              [] OTHER -> FALSE
         /\ l' = l + 1
 Spec == Init /\ [][Next]_vars
